@@ -94,11 +94,13 @@ PROOF_UNITS = {
            + [('contracts.neighbours', 'GetNodeSnapshots', (cls,), {'mode': m, 't': 'none'}) for cls in ('DynGraph', 'DynDiGraph') for m in ('removal', 'accum')],
     'C09': [('contracts.writers', 'GenerateSnapshots', (cls,), {}) for cls in ('DynGraph', 'DynDiGraph')]
            + [('contracts.parsers', 'ParseSnapshots', (cls,), {}) for cls in ('DynGraph', 'DynDiGraph')]
-           + [('contracts.parsers', 'FileWriter', (cls, 'write_snapshots'), {}) for cls in ('DynGraph', 'DynDiGraph')],
+           + [('contracts.parsers', 'FileWriter', (cls, 'write_snapshots'), {}) for cls in ('DynGraph', 'DynDiGraph')]
+           + [('contracts.parsers', 'FileReader', ('read_snapshots', k), {}) for k in ('nokeys', 'keys')],
     'C16': [('contracts.convert', 'ToDirected', (), {})] + [('contracts.ctor', 'Init', ('DynDiGraph',), {'edge_removal': 'default'})],
     'C10': [('contracts.writers', 'GenerateInteractions', (cls,), {}) for cls in ('DynGraph', 'DynDiGraph')]
            + [('contracts.parsers', 'ParseInteractions', (cls,), {}) for cls in ('DynGraph', 'DynDiGraph')]
            + [('contracts.parsers', 'FileWriter', (cls, 'write_interactions'), {}) for cls in ('DynGraph', 'DynDiGraph')]
+           + [('contracts.parsers', 'FileReader', ('read_interactions', k), {}) for k in ('nokeys', 'keys')]
            + [('contracts.stream', 'StreamInteractions', (cls,), {}) for cls in ('DynGraph', 'DynDiGraph')],
     'C11': [('contracts.writers', 'NodeLinkData', (cls,), {}) for cls in ('DynGraph', 'DynDiGraph')]
            + [('contracts.parsers', 'NodeLinkGraph', (fl,), {}) for fl in ('undirected', 'directed')],
@@ -110,7 +112,8 @@ PROOF_UNITS = {
            + [('contracts.iters', 'InteractionsIter', ('DynGraph',), {'t': 'none'}), ('contracts.iters', 'OutInteractionsIter', ('DynDiGraph',), {'t': 'none'})]
            + [('contracts.ctor', 'Init', (cls,), {'edge_removal': e}) for cls in ('DynGraph', 'DynDiGraph') for e in ('default', 'given')],
     'C08': _kernel_units('accum') + _observer_units('accum'),
-    'C18': [('contracts.pure', 'CompactTimeslot', (), {})] + [('contracts.parsers', k, (cls,), {}) for k in ('ParseSnapshots', 'ParseInteractions') for cls in ('DynGraph', 'DynDiGraph')],
+    'C18': [('contracts.pure', 'CompactTimeslot', (), {})] + [('contracts.parsers', k, (cls,), {}) for k in ('ParseSnapshots', 'ParseInteractions') for cls in ('DynGraph', 'DynDiGraph')]
+           + [('contracts.parsers', 'FileReader', (f, k), {}) for f in ('read_snapshots', 'read_interactions') for k in ('nokeys', 'keys')],
 }
 
 def _fw(names):
